@@ -123,7 +123,8 @@ def rel (basep targ : Bytes) : Option Bytes :=
   if b = t then some dotS
   else
     let (br, bc) := compsOfClean b
-    let (tr, tc) := compsOfClean t
+    -- Go only rewrites a base of "." to ""; a target "." stays a component
+    let (tr, tc) := if t = dotS then (false, [dotS]) else compsOfClean t
     if br != tr then none
     else
       let (rb, rt) := stripCommon bc tc
